@@ -9,6 +9,11 @@
 // bytes and on reference encodings built with refnbt, json.Unmarshal on reference literals, the bare-string
 // and list input shapes, chat.Type headers with and without target, and both renderers.
 //
+// families.go adds the fixed-menu families (translation arity 0..5, all formatting codes and their ordered pairs,
+// string classes at every string position, colour values, nesting chains), the same components built through
+// go-mc's constructors, and the render-then-encode history on one value; shapes.go adds the bare-string and
+// list spellings of nested components.
+//
 // Equality is semantic equality of components: nil == empty, and a bare string argument equals the
 // text-only component with that text (they are the same component in the format).
 package main
@@ -1515,7 +1520,15 @@ func main() {
 		rep.Finish()
 	}
 	// the fixed-menu families first: they are small and must never be cut short by the walk's deadline
-	famCases := runFamilies()
+	phases := map[string]float64{} // wall seconds per phase, for reading the evidence of a run on a loaded machine
+	mark := rep.Elapsed()
+	phase := func(name string) {
+		now := rep.Elapsed()
+		phases[name] = float64((now-mark)/time.Millisecond) / 1000
+		mark = now
+	}
+	runFamilies()
+	phase("fixed_menu_families")
 
 	// passes: (departure bound, deadline). The first pass of a tier has no effective deadline and is always
 	// complete; the second one re-walks the space with one more departure under a deadline and reports a cap
@@ -1556,6 +1569,7 @@ func main() {
 		}
 		completed = ps.bound
 	}
+	phase("component_walk")
 	bound := completed
 	rep.Extra("departure_bound_completed", bound)
 	rep.Extra("max_choice_points_per_component", st.MaxTape)
@@ -1584,6 +1598,7 @@ func main() {
 	})
 	rep.AddTrans(cst.Points)
 	rep.Count(fmt.Sprintf("components_built_through_constructors_with_bound_%d", cb), cst.Executions)
+	phase("flag_product_and_constructor_walk")
 	rep.Count("render_changed_the_callers_value", atomic.LoadInt64(&renderChanged))
 	rep.Count("nested_shape_documents_decoded", atomic.LoadInt64(&nestedDocs))
 	rep.Extra("nested_shape_menu", "every comp case: a second reference document in both forms with every text-only child (hover value, extra element, component argument) spelled as a bare string, and a third with every extra-only hover value spelled as a list (either list reading accepted)")
@@ -1614,11 +1629,12 @@ func main() {
 	}
 	engine.ParallelFor(len(typeCases), func(_, i int) { judgeType(typeCases[i]) })
 	rep.Count("type_headers", int64(len(typeCases)))
+	phase("type_headers")
+	rep.Extra("phase_wall_seconds", phases)
 	rep.Sample(typeCases[1])
 
 	rep.Eval(evals)
 	rep.AddTraces(evals)
-	_ = famCases
 	rep.NonTrivial(nSeen - 1 + int64(len(typeCases)))
 	rep.AddStates(nSeen + int64(len(typeCases)))
 	rep.Assume("refnbt (independent NBT reader/writer) and the harness's component model are trusted and self-tested on hand vectors; the language table is set by the harness (extra language_table); equality is component equality: nil==empty and a bare string argument equals the text-only component with that text")
